@@ -239,6 +239,45 @@ class SetObj(Vec):
         return It(self, i if i < len(self.items) and self.items[i] == x else len(self.items))
 
 
+def _okey(x):
+    """total order on abstract keys: integers by value, tuples component-wise, handles by their address"""
+    if isinstance(x, bool):
+        return (0, int(x))
+    if isinstance(x, int):
+        return (0, x)
+    if isinstance(x, tuple):
+        return (2, tuple(_okey(y) for y in x))
+    if x is None:
+        return (1, 0)
+    return (1, getattr(x, "addr", None) if isinstance(getattr(x, "addr", None), int) else id(x))
+
+
+class MapObj(Vec):
+    """std::map: (key, value) pairs sorted by key, unique keys; iterators dereference to the pair"""
+    def __init__(self, items=None):
+        Vec.__init__(self, sorted(items or [], key=lambda kv: _okey(kv[0])), "map")
+
+    def copy_value(self):
+        return MapObj([(k, v.copy_value() if hasattr(v, "copy_value") else v) for k, v in self.items])
+
+    def _pos(self, key):
+        ks = [_okey(k) for k, _ in self.items]
+        import bisect
+        i = bisect.bisect_left(ks, _okey(key))
+        return i, (i < len(ks) and ks[i] == _okey(key))
+
+    def insert(self, kv):
+        i, hit = self._pos(kv[0])
+        if hit:
+            return (It(self, i), False)
+        self.items.insert(i, (kv[0], kv[1]))
+        return (It(self, i), True)
+
+    def find(self, key):
+        i, hit = self._pos(key)
+        return It(self, i if hit else len(self.items))
+
+
 class Buf:
     """fixed-size array of cells (char buf[N])"""
     def __init__(self, n):
@@ -484,7 +523,50 @@ def _apply(ev, fn, x, y):
         return ev.truth(ev.call(fn, None, [x, y]))          # a plain function used as the predicate
     if fn is None:
         return ev.binop("==", x, y)
+    cls = getattr(fn, "_cls", None)
+    if cls and ev.prog is not None:
+        # a function object of the repository: its (possibly templated) operator() with two parameters
+        ops = [f for f in ev.prog.funcs.values() if f.get("cls") == cls and f["n"] == "operator()" and len(f["params"]) == 2 and f.get("body") is not None]
+        if ops:
+            return ev.truth(ev.call(ops[0], fn, [x, y]))
     raise Broken("algorithm called with a predicate the evaluator does not model")
+
+
+def _less(ev, cmp, x, y):
+    return _apply(ev, cmp, x, y) if cmp is not None else ev.truth(ev.binop("<", x, y))
+
+
+def _lower_bound(ev, o, a):
+    """the bisection libstdc++ performs (so that a range that is not ordered by the comparator gives what the real call gives)"""
+    first, last, val = a[0], a[1], a[2]
+    cmp = a[3] if len(a) > 3 else None
+    _rng(first, last)
+    lo, count = first.pos, last.pos - first.pos
+    while count > 0:
+        step = count // 2
+        if _less(ev, cmp, first.vec.items[lo + step], val):
+            lo += step + 1
+            count -= step + 1
+        else:
+            count = step
+    return It(first.vec, lo)
+
+
+def _binary_search(ev, o, a):
+    it = _lower_bound(ev, o, a)
+    cmp = a[3] if len(a) > 3 else None
+    return it.pos != a[1].pos and not _less(ev, cmp, a[2], it.vec.items[it.pos])
+
+
+def _sort(ev, o, a):
+    import functools
+    first, last = a[0], a[1]
+    cmp = a[2] if len(a) > 2 else None
+    r = _rng(first, last)
+    seg = first.vec.items[first.pos:last.pos]
+    seg.sort(key=functools.cmp_to_key(lambda x, y: -1 if _less(ev, cmp, x, y) else (1 if _less(ev, cmp, y, x) else 0)))
+    first.vec.items[first.pos:last.pos] = seg
+    return None
 
 
 def _apply1(ev, fn, x):
@@ -557,7 +639,9 @@ def vector_hooks():
             out[k] = fn
     for name in ("length", "c_str", "data", "find", "rfind", "compare", "substr", "append"):
         out["method:" + name] = (lambda name: (lambda ev, o, a: o.cxx(name, ev, a) if isinstance(o, StdStr) else
-                                               (Ptr(o.items, 0) if name == "data" and isinstance(o, Vec) else (_ for _ in ()).throw(Broken("%s on an object that is not a string" % name)))))(name)
+                                               (Ptr(o.items, 0) if name == "data" and isinstance(o, Vec) else
+                                                (o.find(a[0]) if name == "find" and isinstance(o, (SetObj, MapObj)) else
+                                                 (_ for _ in ()).throw(Broken("%s on an object that is not a string" % name))))))(name)
     out["ctor:std::basic_string<*"] = lambda ev, o, a: StdStr.construct(a)
     out["ctor:std::allocator<*"] = lambda ev, o, a: Sym.of("allocator")
     out["std::setfill<char>"] = lambda ev, o, a: ("setfill", chr(int(a[0]) & 0xff))
@@ -592,7 +676,8 @@ def _vector_hooks():
         "method:emplace_back": lambda ev, o, a: o.items.append(_cp(a[0])) if len(a) == 1 else (_ for _ in ()).throw(Broken("emplace_back with %d arguments" % len(a))),
         "method:pop_back": lambda ev, o, a: (_chk_idx(o, len(o.items) - 1, "pop_back()"), o.items.pop())[1],
         "method:clear": lambda ev, o, a: o.items.clear(),
-        "method:insert": lambda ev, o, a: o.insert(a[0]) if isinstance(o, SetObj) and len(a) == 1 else _insert(o, a),
+        "method:insert": lambda ev, o, a: o.insert(a[0]) if isinstance(o, (SetObj, MapObj)) and len(a) == 1 else _insert(o, a),
+        "method:find": lambda ev, o, a: o.find(a[0]) if isinstance(o, (SetObj, MapObj)) else (_ for _ in ()).throw(Broken("find() on an unmodelled container")),
         "method:count": lambda ev, o, a: (1 if o.find(a[0]).pos < len(o.items) else 0) if isinstance(o, SetObj) else sum(1 for x in o.items if x == a[0]),
         "method:erase": lambda ev, o, a: _erase(o, a),
         "method:operator*": lambda ev, o, a: o.deref() if isinstance(o, It) else (o.load() if isinstance(o, Ptr) else o),
@@ -616,6 +701,10 @@ def _vector_hooks():
         "std::none_of<*": lambda ev, o, a: not any(ev.truth(_apply1(ev, a[2], x)) for x in _elems(a[0], a[1])),
         "std::count_if<*": lambda ev, o, a: sum(1 for x in _elems(a[0], a[1]) if ev.truth(_apply1(ev, a[2], x))),
         "std::find_if<*": lambda ev, o, a: next((It(a[0].vec, i) for i in _rng(a[0], a[1]) if ev.truth(_apply1(ev, a[2], a[0].vec.items[i]))), a[1].copy_value()),
+        "std::make_pair<*": lambda ev, o, a: (a[0], a[1]),
+        "std::lower_bound<*": _lower_bound,
+        "std::binary_search<*": _binary_search,
+        "std::sort<*": _sort,
         "std::mismatch<*": _mismatch,
         "std::equal<*": _equal,
         "std::search<*": _search,
@@ -964,7 +1053,9 @@ class CxxEvaluator(Evaluator):
                     return d
             if not e.get("a") and c.startswith("std::set<"):
                 return SetObj()
-            if not e.get("a") and c.startswith(("std::vector<", "std::map<")):
+            if not e.get("a") and c.startswith("std::map<"):
+                return MapObj()
+            if not e.get("a") and c.startswith("std::vector<"):
                 return Vec([], "vector")
             if not e.get("a") and e.get("implicit") and self.hook_for("ctor:" + c) is None and \
                not (self.prog is not None and (self.prog.funcs.get(e.get("fid")) or {}).get("inits")):
@@ -1212,6 +1303,10 @@ class CxxEvaluator(Evaluator):
             b = self.eval(u["b"], env, this)
             if isinstance(b, It):
                 b = b.deref()
+            if isinstance(b, tuple) and u["n"] in ("first", "second") and (not b or b[0] != "enum") and len(b) == 2:
+                # std::pair is modelled as an immutable tuple: a store to one component replaces the pair in its variable
+                self.store(u["b"], (val, b[1]) if u["n"] == "first" else (b[0], val), env, this)
+                return
             if isinstance(b, dict):
                 b[u["n"]] = val
             else:
